@@ -642,7 +642,24 @@ fn run_hist(ops: &str, seed: &str) -> R<String> {
             return Ok(format!("DIFF\tdocument of op {} was changed", i));
         }
     }
-    Ok(format!("OK\tops={} perms={} threads={} iters={}", n, perms, threads, iters))
+    // a digest of what each operation returned in this process (paths only: addresses differ between processes)
+    let digest: Vec<String> = baseline
+        .iter()
+        .map(|o| match o {
+            Ok(v) => {
+                let mut h: u64 = 1469598103934665603;
+                for (_, p) in v {
+                    for b in p.bytes().chain(std::iter::once(0u8)) {
+                        h ^= b as u64;
+                        h = h.wrapping_mul(1099511628211);
+                    }
+                }
+                format!("{}:{:x}", v.len(), h)
+            }
+            Err(_) => "E".to_string(),
+        })
+        .collect();
+    Ok(format!("OK\tops={} perms={} threads={} iters={}\t{}", n, perms, threads, iters, digest.join(",")))
 }
 
 /// C08: a query string against a document through every public entry point.
